@@ -115,6 +115,63 @@ var bodyFiles = map[string]*facts.BodyFile{
 					"errNetconf1Dot1ParseError": {AnyArgs: true, Ret: []string{"error"}, Tmpl: "(some \"errNetconf1Dot1Error\" : Go.Error)"},
 				},
 				State: []facts.StateVar{{Key: "recv.Result", Lean: "result", Ty: "bytes"}}},
+			{Dir: "response", Recv: "NetconfResponse", Name: "record1dot1", Lean: "record1dot1",
+				Doc: "`input` = `r.Input`, `errText` = `error.Error`; state: `result` = `r.Result`, `failed` = `r.Failed` " +
+					"(`*OperationError` as the triple input / output / error string).",
+				Binders: "(fuel : Nat) (errText : Go.Error → Bytes) (input raw : Bytes)", BinderArgs: "fuel errText input raw",
+				Partial: true,
+				Vals:    map[string]facts.Val{"recv.Input": {Lean: "input", Ty: "bytes"}},
+				Funcs:   map[string]facts.LibFn{"err.Error": {Args: []string{}, Ret: []string{"bytes"}, Tmpl: "(errText err)"}},
+				Steps: map[string]facts.Step{
+					"%v := recv.record1dot1Chunks()": {BindTy: "error", Pre: []string{"match record1dot1Chunks fuel raw result with",
+						"| none => none", "| some (%v, result) => ("}, Post: ")"},
+				},
+				Structs: map[string]facts.StructLit{
+					"&OperationError": {Fields: map[string]string{"Input": "bytes", "Output": "bytes", "ErrorString": "bytes"},
+						Tmpl: "(some (%Input, %Output, %ErrorString))", Ty: "opaque:Option (Bytes × Bytes × Bytes)"},
+				},
+				State: []facts.StateVar{
+					{Key: "recv.Result", Lean: "result", Ty: "bytes"},
+					{Key: "recv.Failed", Lean: "failed", Ty: "opaque:Option (Bytes × Bytes × Bytes)"},
+				}},
+			{Dir: "response", Recv: "NetconfResponse", Name: "Record", Lean: "record",
+				Doc: "`input` = `r.Input`, `fwc` = `r.FailedWhenContains`, `version` = `r.NetconfVersion`, `findErr` / `findAllErr` = " +
+					"`rpcErrors.Find` / `rpcSingleErrors.FindAll(·, -1)`; state: raw / result / failed and the two message lists. " +
+					"The two time stamps are not modelled.",
+				Binders: "(fuel : Nat) (errText : Go.Error → Bytes) (input : Bytes) (fwc : List Bytes) (version : Bytes) " +
+					"(findErr : Bytes → Bytes) (findAllErr : Bytes → List Bytes)",
+				BinderArgs: "fuel errText input fwc version findErr findAllErr",
+				Partial:    true,
+				Vals: map[string]facts.Val{
+					"recv.Input":              {Lean: "input", Ty: "bytes"},
+					"recv.FailedWhenContains": {Lean: "fwc", Ty: "list"},
+					"recv.NetconfVersion":     {Lean: "version", Ty: "bytes"},
+					"recv.Failed == nil":      {Lean: "failed.isNone", Ty: "bool"},
+					"getNetconfPatterns()":    {Lean: "()", Ty: "unit"},
+				},
+				Funcs: map[string]facts.LibFn{
+					"util.ByteContainsAny":                 {Args: []string{"bytes", "list"}, Ret: []string{"bool"}, Tmpl: "(byteContainsAny %0 %1)"},
+					"patterns.rpcErrors.Find":              {Args: []string{"bytes"}, Ret: []string{"bytes"}, Tmpl: "(findErr %0)"},
+					"getNetconfPatterns().rpcErrors.Find":  {Args: []string{"bytes"}, Ret: []string{"bytes"}, Tmpl: "(findErr %0)"},
+					"patterns.rpcSingleErrors.FindAll":     {Args: []string{"bytes", "int"}, Ret: []string{"list"}, Tmpl: "(findAllErr %0)"},
+				},
+				Steps: map[string]facts.Step{
+					"recv.record1dot0()": {Pre: []string{"let result := record1dot0 raw result"}},
+					"recv.record1dot1()": {Pre: []string{"match record1dot1 fuel errText input raw result failed with",
+						"| none => none", "| some (result, failed) => ("}, Post: ")"},
+				},
+				Structs:      map[string]facts.StructLit{
+					"&OperationError": {Fields: map[string]string{"Input": "bytes", "Output": "bytes", "ErrorString": "bytes"},
+						Tmpl: "(some (%Input, %Output, %ErrorString))", Ty: "opaque:Option (Bytes × Bytes × Bytes)"},
+				},
+				IgnoreAssign: []string{"recv.EndTime", "recv.ElapsedTime"},
+				State: []facts.StateVar{
+					{Key: "recv.RawResult", Lean: "raw", Ty: "bytes"},
+					{Key: "recv.Result", Lean: "result", Ty: "bytes"},
+					{Key: "recv.Failed", Lean: "failed", Ty: "opaque:Option (Bytes × Bytes × Bytes)"},
+					{Key: "recv.ErrorMessages", Lean: "errorMessages", Ty: "list"},
+					{Key: "recv.WarningErrorMessages", Lean: "warningMessages", Ty: "list"},
+				}},
 		},
 	},
 	// C05: channel/channel.go
